@@ -64,6 +64,50 @@ class LogNames:
         return ast
 
 
+def reuse_shard(m, items):
+    """One generated parser object used for two parses that differ in the parse-time ignorecase / keywords settings:
+    the second parse must give what a fresh parser object gives for it."""
+    words = ['if', 'IF', 'If', 'x', 'x if', 'if x', 'x IF']
+    modes = [{}, {'ignorecase': True}, {'ignorecase': False}]
+    for shape, ks in items:
+        g = gs.Grammar(rules=SHAPES[shape] + [ID], keywords=ks)
+        label = gs.render_grammar(g)
+        model = impl.compile_text(label)
+        pcls, _src = c02.load_generated(model)
+        for s1 in modes:
+            for s2 in modes:
+                if s1 == s2:
+                    continue
+                for w1 in words:
+                    for w2 in words:
+                        parser = pcls()
+                        try:
+                            parser.parse(w1, **s1)
+                        except Exception:  # noqa
+                            pass
+                        got = c03_reused(parser, w2, s2)
+                        want = c02.generated_parse(pcls, w2, **s2)
+                        m.add('evaluations', 2)
+                        m.add('transitions', 2)
+                        m.add('states')
+                        m.add('nontrivial')
+                        if got[0] != want[0] or (got[0] == 'ok' and got[1] != want[1]):
+                            m.violation(f'reused-parser/second-parse-differs-from-fresh-parser/{shape}', grammar=label, first=[w1, s1], second=[w2, s2],
+                                        got=got, want=want)
+
+
+def c03_reused(parser, text, settings):
+    from tatsu.exceptions import FailedParse, ParseException
+    try:
+        return ('ok', impl.norm(parser.parse(text, **settings)))
+    except FailedParse as e:
+        return ('fail', type(e).__name__, getattr(e, 'pos', None))
+    except ParseException as e:
+        return ('fail', type(e).__name__, None)
+    except Exception as e:  # noqa
+        return ('exc', type(e).__name__, str(e)[:100])
+
+
 def cases():
     for shape in SHAPES:
         for ks in KEYSETS:
@@ -147,6 +191,7 @@ def shard(m, items, maxwords=3):
 def run(rc):
     cs = list(cases())
     rc.pmap(shard, cs, chunk=1, maxwords=3 if rc.tier == "quick" else 4)
+    rc.pmap(reuse_shard, [(sh, ks) for sh in ('bare', 'closure', 'choice-with-keyword') for ks in KEYSETS[:2] + KEYSETS[3:4]], chunk=1)
     c = rc.total.counts
     rc.rule = (f'{len(SHAPES)} grammar shapes around an @name rule x {len(KEYSETS)} keyword sets x ignorecase {{off, directive, parse-time setting, explicit False as directive / setting, directive True overridden by setting False}} x all '
                f'word sequences of length <= {3 if rc.tier == "quick" else 4} over {WORDS}; model, generated parser and undecorated grammar; '
